@@ -819,6 +819,9 @@ funcexpr(struct func *f, struct expr *e)
 		if (e->op == TLOR || e->op == TLAND) {
 			b[0] = mkblock("logic_right");
 			b[1] = mkblock("logic_join");
+			/* if the left operand ended in a call that does not return, the phi still needs a predecessor */
+			if (f->end->jump.kind)
+				funclabel(f, mkblock("dead"));
 			t = e->u.binary.l->type;
 			if (e->op == TLOR) {
 				funcjnz(f, l, t, b[1], b[0]);
